@@ -26,6 +26,17 @@ def build_cases(chk):
         })
         if not cases[-1]["updC"] and not cases[-1]["updS"]:
             cases[-1]["updC"] = [True]
+    # asymmetric histories: one side has updated 6-8 times before the other updates for the first time, while it keeps writing
+    # (nothing is lost or duplicated, datagrams are only delayed: every payload must be read)
+    for j in range(4 if chk.quick else 16):
+        many, late = [False] * rng.choice([6, 7, 8]), [rng.random() < 0.5]
+        c = {"id": len(cases), "seed": rng.randint(1, 10 ** 9), "intervalMs": 15, "loss": 0, "dup": 0, "delay": rng.choice([10, 25]),
+             "writers": 2, "writes": 90, "callers": 1, "craft": "", "suite": ""}
+        if j % 2 == 0:
+            c.update(updC=many, updS=late, lateS=rng.choice([120, 180]))
+        else:
+            c.update(updS=many, updC=late, lateC=rng.choice([120, 180]))
+        cases.append(c)
     return cases
 
 
